@@ -498,7 +498,7 @@ def _box_new(I, ctx, v): return v
 @model('re:^<(Rc|Arc|Box|std::rc::Rc|std::sync::Arc)<.*> as (Deref|DerefMut|AsRef<.*>|AsMut<.*>|Borrow<.*>|BorrowMut<.*>)>::(deref|deref_mut|as_ref|as_mut|borrow|borrow_mut)$')
 def _box_deref(I, ctx, r):
     return r if isinstance(deref1(r), Ref) is False and isinstance(r, Ref) else r
-@model('re:^(?:core|std|alloc)::slice::<impl \\[.*\\]>::get$', 're:^(?:core|std|alloc)::slice::<impl \\[.*\\]>::get_mut$')
+@model('re:^(?:(?:core|std|alloc)::)?slice::<impl \\[.*\\]>::get$', 're:^(?:(?:core|std|alloc)::)?slice::<impl \\[.*\\]>::get_mut$')
 def _slice_get(I, ctx, r, idx):
     l, lo, hi = seq_view(r)
     n = hi - lo
@@ -512,32 +512,32 @@ def _slice_get(I, ctx, r, idx):
         i = ctx.concretize(idx)
         return SOME(ElemRef(l, lo + i))
     return NONE()
-@model('re:^(?:core|std|alloc)::slice::<impl \\[.*\\]>::len$')
+@model('re:^(?:(?:core|std|alloc)::)?slice::<impl \\[.*\\]>::len$')
 def _(I, ctx, r): return BV(seq_len(r), 64)
-@model('re:^(?:core|std|alloc)::slice::<impl \\[.*\\]>::is_empty$')
+@model('re:^(?:(?:core|std|alloc)::)?slice::<impl \\[.*\\]>::is_empty$')
 def _(I, ctx, r): return seq_len(r) == 0
-@model('re:^(?:core|std|alloc)::slice::<impl \\[.*\\]>::(first|first_mut)$')
+@model('re:^(?:(?:core|std|alloc)::)?slice::<impl \\[.*\\]>::(first|first_mut)$')
 def _(I, ctx, r):
     l, lo, hi = seq_view(r)
     return SOME(ElemRef(l, lo)) if hi > lo else NONE()
-@model('re:^(?:core|std|alloc)::slice::<impl \\[.*\\]>::(last|last_mut)$')
+@model('re:^(?:(?:core|std|alloc)::)?slice::<impl \\[.*\\]>::(last|last_mut)$')
 def _(I, ctx, r):
     l, lo, hi = seq_view(r)
     return SOME(ElemRef(l, hi - 1)) if hi > lo else NONE()
-@model('re:^(?:core|std|alloc)::slice::<impl \\[.*\\]>::(iter|iter_mut)$')
+@model('re:^(?:(?:core|std|alloc)::)?slice::<impl \\[.*\\]>::(iter|iter_mut)$')
 def _slice_iter(I, ctx, r):
     l, lo, hi = seq_view(r)
     return ListIt([ElemRef(l, k) for k in range(lo, hi)])
-@model('re:^(?:core|std|alloc)::slice::<impl \\[.*\\]>::to_vec$', 're:^<\\[.*\\] as ToOwned>::to_owned$', 're:^(?:core|std|alloc)::slice::<impl \\[.*\\]>::into_vec$',
+@model('re:^(?:(?:core|std|alloc)::)?slice::<impl \\[.*\\]>::to_vec$', 're:^<\\[.*\\] as ToOwned>::to_owned$', 're:^(?:(?:core|std|alloc)::)?slice::<impl \\[.*\\]>::into_vec$',
        're:^<Vec<.*> as From<&\\[.*\\]>>::from$', 're:^<Vec<.*> as From<\\[.*\\]>>::from$', 're:^<Vec<.*> as From<&\\[.*; \\d+\\]>>::from$')
 def _to_vec(I, ctx, r): return VecV([copy_value(x) for x in seq_items(r)])
-@model('re:^(?:core|std|alloc)::slice::<impl \\[.*\\]>::contains$')
+@model('re:^(?:(?:core|std|alloc)::)?slice::<impl \\[.*\\]>::contains$')
 def _(I, ctx, r, x):
     x = deref(x)
     for y in seq_items(r):
         if ctx.branch(values_eq(I, ctx, x, y)): return True
     return False
-@model('re:^(?:core|std|alloc)::slice::<impl \\[.*\\]>::(starts_with)$')
+@model('re:^(?:(?:core|std|alloc)::)?slice::<impl \\[.*\\]>::(starts_with)$')
 def _(I, ctx, r, p):
     a, b = seq_items(r), seq_items(p)
     if len(b) > len(a): return False
